@@ -109,12 +109,23 @@ def program(shape, annotated, where):
                 % (sig, ret, body))
     if where == "branch":
         return "dv = 100\nif dv:\n    def f(%s)%s:\n        %s\nelse:\n    def f():\n        return None\ndv = 200\n" % (sig, ret, body)
+    if where == "nested_named_top":
+        # a function called `top` (the symtable module takes a block of that name for the module block) nested
+        # in a function whose locals are spelled like its parameters
+        return ("def outer(p0=90, p1=91, a0=92, a1=93, k0=94, k1=95, rest=96, kw=97):\n    dv = 100\n"
+                "    def top(%s)%s:\n        %s\n    return top\nf = outer()\n" % (sig, ret, body))
+    if where == "method_in_class_in_function":
+        # defaults read a name that the class binds LATER: until then the module variable counts, not the
+        # enclosing function's local of the same spelling
+        return ("dv = 100\ndef outer():\n    dv = 300\n    class K:\n        def f(%s)%s:\n            %s\n        dv = 200\n    return K\nf = outer().__dict__['f']\n"
+                % (sig, ret, body))
     if where == "decorated":
         return ("dv = 100\ndef keep(fn):\n    return fn\n@keep\n@keep\ndef f(%s)%s:\n    %s\ndv = 200\n" % (sig, ret, body))
     raise ValueError(where)
 
 
-MORE_PLACEMENTS = ("lambda", "lambda_in_function", "lambda_in_class", "loop", "class_in_function", "branch", "decorated")
+MORE_PLACEMENTS = ("lambda", "lambda_in_function", "lambda_in_class", "loop", "class_in_function", "branch", "decorated",
+                   "nested_named_top", "method_in_class_in_function")
 
 
 def battery(shape):
@@ -279,6 +290,9 @@ TEMPLATES = [
     "def f(xs):\n    for x in xs:\n        if x:\n            continue\n        else:\n            L('falsy', x)\n    for x in xs:\n        if x:\n            break\n        else:\n            L('before', x)\n    else:\n        return 'no break'\nL('r', f([0, 1, 0]), f([0, 0]), f([]))",
     # the returned value is falsy (0, None, '', [], False): the caller gets exactly that object
     "def f(k):\n    if k == 0:\n        return 0\n    if k == 1:\n        return ''\n    if k == 2:\n        return []\n    if k == 3:\n        return None\n    if k == 4:\n        return False\n    for i in range(3):\n        if i == 1:\n            return 0.0\n    return 'end'\nL('r', [f(k) for k in range(6)])",
+    # if / elif WITHOUT else: no branch taken means None (not the value of a branch), also for falsy branch values
+    "def f(x):\n    if x == 1:\n        return 'a'\n    elif x == 2:\n        return 'b'\n    elif x == 3:\n        return 0\nL('r', f(1), f(2), f(3), f(4))",
+    "def f(x):\n    r = 'init'\n    if x == 1:\n        r = 0\n    elif x == 2:\n        r = None\n    elif x == 3:\n        r = 'c'\n    return r\ndef g(x):\n    if x:\n        if x == 1:\n            return []\n        elif x == 2:\n            return ''\n    elif x is None:\n        return 'none'\n    return 'end'\nL('r', [f(i) for i in range(5)], [g(i) for i in (0, 1, 2, 3, None)])",
     # recursion and closures keep binding
     "def fact(n, acc=1):\n    return acc if n <= 1 else fact(n - 1, acc * n)\nL('r', fact(5), fact(n=3), fact(4, acc=2))",
     "def deco(fn):\n    def w(*a, **k):\n        return fn(*a, **k)\n    return w\nclass K:\n    @deco\n    def m(self, x, /, y=2, *, z=3):\n        return (x, y, z)\n    @staticmethod\n    @deco\n    def s(x=1):\n        return x\n    @classmethod\n    def c(cls, *a, **k):\n        return (cls.__name__, a, sorted(k))\nL('r', K().m(1), K().m(1, 5, z=6), K.s(), K().s(4), K.c(1, q=2), K().c())",
